@@ -14,7 +14,7 @@ use refmodel::txjson::{self, Spell};
 const P: &str = "C11";
 fn chain_alphabet() -> Vec<(&'static str, Option<Option<Nat>>)> { // None = key absent, Some(None) = null
     let cmax = Nat::pow2(255).sub(&Nat::from_u64(19));
-    vec![("absent", None), ("null", Some(None)), ("0", Some(Some(Nat::zero()))), ("1", Some(Some(Nat::from_u64(1)))), ("2^32", Some(Some(Nat::pow2(32)))), ("2^64-1", Some(Some(Nat::pow2(64).sub(&Nat::from_u64(1))))), ("2^128+5", Some(Some(Nat::pow2(128).add(&Nat::from_u64(5))))), ("(2^32-36)/2+1", Some(Some(Nat::from_u64(2147483631)))), ("(2^64-36)/2", Some(Some(Nat::pow2(63).sub(&Nat::from_u64(18))))), ("(2^64-36)/2+1", Some(Some(Nat::pow2(63).sub(&Nat::from_u64(17))))), ("cmax", Some(Some(cmax.clone()))),
+    vec![("absent", None), ("null", Some(None)), ("0", Some(Some(Nat::zero()))), ("1", Some(Some(Nat::from_u64(1)))), ("2^32", Some(Some(Nat::pow2(32)))), ("2^64-1", Some(Some(Nat::pow2(64).sub(&Nat::from_u64(1))))), ("2^128+5", Some(Some(Nat::pow2(128).add(&Nat::from_u64(5))))), ("2^53+1", Some(Some(Nat::from_u64(9007199254740993)))), ("1234567890123456789", Some(Some(Nat::from_u64(1234567890123456789)))), ("2^64-1", Some(Some(Nat::from_u64(u64::MAX)))), ("1337", Some(Some(Nat::from_u64(1337)))), ("(2^32-36)/2+1", Some(Some(Nat::from_u64(2147483631)))), ("(2^64-36)/2", Some(Some(Nat::pow2(63).sub(&Nat::from_u64(18))))), ("(2^64-36)/2+1", Some(Some(Nat::pow2(63).sub(&Nat::from_u64(17))))), ("cmax", Some(Some(cmax.clone()))),
         // beyond cmax the tool may refuse; if it signs, v must still be the exact integer 35 + 2c + yParity (no wrap-around)
         ("cmax+1", Some(Some(cmax.add(&Nat::from_u64(1))))), ("cmax+2", Some(Some(cmax.add(&Nat::from_u64(2))))), ("2^255", Some(Some(Nat::pow2(255)))), ("2^256-1", Some(Some(Nat::pow2(256).sub(&Nat::from_u64(1)))))]
 }
@@ -28,21 +28,23 @@ pub fn run(ctx: &Ctx) {
     let curve = Curve::new(); let mut ids = chain_alphabet();
     if ctx.thorough() { for k in [7usize, 8, 15, 16, 31, 33, 53, 63, 64, 65, 127, 128, 129, 191, 192, 200, 248, 253, 254] { ids.push(("2^k", Some(Some(Nat::pow2(k))))); ids.push(("2^k-1", Some(Some(Nat::pow2(k).sub(&Nat::from_u64(1)))))); } }
     let keys = [key_of(&curve, GANACHE, "", &default_path(0)), key_of(&curve, GANACHE, "", &default_path(1))];
-    let n = (3 * ids.len() * 2 * 2 * 2 * 2 * 2) as u64;
-    ctx.sweep("sign-transaction-matrix", "kind {legacy, 2930, 1559} x chainId {absent, null, 0, 1, 2^32, 2^64-1, 2^128+5, cmax=(2^256-37)/2, and cmax+1, cmax+2, 2^255, 2^256-1 which may be refused but never signed with a wrapped v} x --allow-missing-relay-protection {off, on} x --signature-only {off, on} x target parity {0, 1} x 2 accounts x 2 builds", n, |i| {
+    let n = (3 * ids.len() * 2 * 2 * 2 * 2 * 2 * 4) as u64;
+    ctx.sweep("sign-transaction-matrix", "kind {legacy, 2930, 1559} x chainId {absent, null, 0, 1, 2^32, 2^64-1, 2^128+5, cmax=(2^256-37)/2, and cmax+1, cmax+2, 2^255, 2^256-1 which may be refused but never signed with a wrapped v} x --allow-missing-relay-protection {off, on} x --signature-only {off, on} x target parity {0, 1} x 2 accounts x 2 builds x chain-id spelling {0x string, decimal string, bare JSON integer, float notation}", n, |i| {
         let mut k = i as usize; let mut take = |m: usize| { let v = k % m; k /= m; v };
-        let build = [Build::Release, Build::Checked][take(2)]; let acct = take(2); let want_par = take(2) == 1; let sig_only = take(2) == 1; let allow = take(2) == 1; let (cname, cid) = ids[take(ids.len())].clone(); let (kind, kname) = kinds()[take(3)];
+        let build = [Build::Release, Build::Checked][take(2)]; let spelling = take(4); let acct = take(2); let want_par = take(2) == 1; let sig_only = take(2) == 1; let allow = take(2) == 1; let (cname, cid) = ids[take(ids.len())].clone(); let (kind, kname) = kinds()[take(3)];
         let key = &keys[acct];
         let mut tx: Tx = txjson::template(kind, true); tx.chain_id = cid.clone().flatten();
         // reach the requested parity by a small tweak of the gas limit (reference computation only)
         if cid.clone().flatten().is_some() || kind == Kind::Legacy { for t in 0..64u64 { tx.gas = Nat::from_u64(21000 + t); if curve.sign_rfc6979(key, &tx.signing_hash()).2 == want_par { break; } } }
         let mut f = txjson::tx_fields(&tx, Spell::Auto);
-        match &cid { None => txjson::set(&mut f, "chainId", None), Some(None) => txjson::set(&mut f, "chainId", Some(J::Null)), Some(Some(c)) => txjson::set(&mut f, "chainId", Some(txjson::num(c, Spell::Hex))) }
+        match &cid { None => txjson::set(&mut f, "chainId", None), Some(None) => txjson::set(&mut f, "chainId", Some(J::Null)), Some(Some(c)) => txjson::set(&mut f, "chainId", Some(match spelling { 0 => txjson::num(c, Spell::Hex), 1 => txjson::num(c, Spell::Dec), 2 => txjson::num(c, Spell::JsonIntIfU64), _ => if *c < Nat::pow2(64) { J::Num(format!("{}.0", c.to_dec())) } else { txjson::num(c, Spell::Dec) } })) }
+        // float notation at or above 2^53 is not a spelling the tool is obliged to read: refused, or read exactly
+        let open_spelling = spelling == 3 && cid.clone().flatten().map_or(false, |c| c >= Nat::pow2(53) && c < Nat::pow2(64));
         let text = J::Obj(f).to_text();
         let mut cmd = Cmd::new(&["sign", "--mnemonic", GANACHE, "--account-index", &acct.to_string(), "transaction", "-"]).stdin(text.as_bytes());
         if sig_only { cmd = cmd.arg("--signature-only"); } if allow { cmd = cmd.arg("--allow-missing-relay-protection"); }
         let r = cmd.run(build);
-        let shape = format!("{kname},chain={cname},allow={},sigonly={},{build:?}", allow as u8, sig_only as u8);
+        let shape = format!("{kname},chain={cname},spelling={spelling},allow={},sigonly={},{build:?}", allow as u8, sig_only as u8);
         let sig = format!("{kname},chain={},allow={},sigonly={}", if cid.clone().flatten().is_some() { "present" } else { cname }, allow as u8, sig_only as u8);
         let replay = cmd.replay("sign-transaction-matrix", i, build);
         ctx.sample("sign-transaction-matrix", || serde_json::json!({"command": trunc(&cmd.shown(), 500)}));
@@ -57,6 +59,7 @@ pub fn run(ctx: &Ctx) {
         if kind == Kind::Legacy && cid == Some(None) && allow && !r.ok() { ctx.eval(format!("{shape}:null-refused")); return; } // null chain id with the override: refusing is acceptable
         let beyond = kind == Kind::Legacy && cid.clone().flatten().map_or(false, |c| c > Nat::pow2(255).sub(&Nat::from_u64(19)));
         if beyond && !r.ok() { ctx.eval(format!("{shape}:beyond-cmax-refused")); return; }
+        if open_spelling && !r.ok() { ctx.eval(format!("{shape}:float-notation-beyond-2^53-refused")); return; }
         if !r.ok() { ctx.eval(format!("{shape}:refused")); ctx.violation(format!("{P}:sign:{sig}:refused"), format!("a signable transaction is refused: {}", r.describe()), replay); return; }
         let digest = tx.signing_hash(); let (rr, rs, rodd, _) = curve.sign_rfc6979(key, &digest);
         ctx.eval(format!("{shape}:signed,parity={}", rodd as u8));
